@@ -422,8 +422,7 @@ class HeapPrograms(Stream):
 SKIP_NAMES = {"show", "to_code_file", "to_file", "to_pickle", "to_events_pickle", "to_midi", "to_musicxml", "to_text_file", "predict_score",
               "from_str", "from_file", "from_midi", "from_xml", "from_pickle", "from_annotation", "from_annotation_file", "from_chord_list",
               "from_chord_repr", "from_chromagram", "from_pattern", "from_sequence", "from_romantext", "from_grid", "json_file_to_score",
-              "dict_to_score", "get_random_permutation", "init_properties", "to_chromagram", "get_patterns", "patternize", "to_pattern",
-              "extract_densities", "reparse", "clean", "to_music21"}
+              "dict_to_score", "get_random_permutation", "init_properties", "to_chromagram", "extract_densities", "reparse", "clean", "to_music21"}
 
 
 def zero_arg_ops():
@@ -554,6 +553,11 @@ def catalogue():
     add("score.to_midi", ["score"], lambda a, r: to_midi_tmp(a[0]))
     add("str", ["score"], lambda a, r: str(a[0]))
     add("hash/eq", ["chord", "chord"], lambda a, r: (hash(a[0]), a[0] == a[1]))
+    add("lib.note.add_tag", [], lambda a, r: lib_sym(r, "note").add_tag("t"))
+    add("lib.note.ornament", [], lambda a, r: getattr(lib_sym(r, "note"), r.choice(["accent", "mordant", "retarded"])))
+    add("lib.melody.ornament", [], lambda a, r: getattr(lib_sym(r, "note") + lib_sym(r, "note") + lib_sym(r, "note"), r.choice(["accent", "mordant"])))
+    add("lib.note.remove_tag", [], lambda a, r: lib_sym(r, "note").add_tag("t").remove_tag("t"))
+    add("note.remove_tag-present", ["note"], lambda a, r: a[0].add_tag("z").remove_tag("z"))
     add("lib.note.o", [], lambda a, r: lib_sym(r, "note").o(1))
     add("lib.note+note", [], lambda a, r: lib_sym(r, "note") + lib_sym(r, "note"))
     add("lib.note.dur", [], lambda a, r: getattr(lib_sym(r, "note"), r.choice(["h", "e", "qd"])))
